@@ -127,7 +127,7 @@ def build_example(name, form, seed):
 # generated API programs
 
 
-def build_api(spec):
+def build_api(spec, rng_override=None):
     import networkx as nx
     from mesa import Agent, Model
     from mesa.discrete_space import CellAgent, HexGrid, Network, OrthogonalMooreGrid, OrthogonalVonNeumannGrid
@@ -177,13 +177,17 @@ def build_api(spec):
                 self.grid = HexGrid((4, 4), torus=True, random=self.random)
             elif gk == "network":
                 self.grid = Network(nx.cycle_graph(9), random=self.random)
+            elif gk == "network_str":
+                # string-labelled nodes: anything that iterates a set of labels depends on PYTHONHASHSEED
+                g0 = nx.relabel_nodes(nx.petersen_graph(), {i: f"node-{i}" for i in range(10)})
+                self.grid = Network(g0, random=self.random)
             elif gk == "single":
                 self.grid = SingleGrid(4, 4, torus=True)
             elif gk == "multi":
                 self.grid = MultiGrid(4, 3, torus=False)
             else:
                 self.grid = None
-            if gk in ("moore", "vn", "hex", "network"):
+            if gk in ("moore", "vn", "hex", "network", "network_str"):
                 ws = Walker.create_agents(self, n, wealth=self.rng.integers(0, 5, n))
                 for a in ws:
                     a.cell = self.grid.select_random_empty_cell() if gk != "moore" else self.grid.all_cells.select_random_cell()
@@ -235,7 +239,7 @@ def build_api(spec):
                 for a, w in zip(A, self.rng.permutation(len(A))):
                     a.wealth += int(w) % 2
             elif op == "cell_agents":
-                if gk in ("moore", "vn", "hex", "network"):
+                if gk in ("moore", "vn", "hex", "network", "network_str"):
                     c = self.grid.all_cells.select_random_cell()
                     ags = list(c.neighborhood.agents)
                     if ags:
@@ -248,6 +252,8 @@ def build_api(spec):
             else:
                 raise ValueError(op)
 
+    if rng_override is not None:
+        return M(rng=rng_override)
     return M(**seed_kwargs(spec["form"], spec["seed"]))
 
 
@@ -289,9 +295,25 @@ def derived_bad(model):
     return bad
 
 
+def churn():
+    """prior in-process history: many short-lived models and agents, then a collection pass, so that later
+    objects are likely to land on recycled addresses"""
+    import gc
+
+    from mesa import Agent, Model
+
+    for _ in range(60):
+        m = Model(seed=1)
+        Agent.create_agents(m, 7)
+        del m
+    gc.collect()
+
+
 def run_spec(spec):
     for w in spec.get("warm", []):
         run_spec(w)
+    if spec.get("warm"):
+        churn()
     from mesa import Model
 
     py0, np0 = random.getstate(), np.random.get_state()
@@ -321,6 +343,19 @@ def run_spec(spec):
         again = ([m1.random.random() for _ in range(3)], m1.rng.random(3).tolist())
         if first != again:
             reseed_ok = False
+    # the same seed OBJECT handed to two models gives the same trajectory (SeedSequence is a value, not a stream)
+    same_obj_ok = True
+    if spec["prog"] == "api" and spec["form"] == "rng_seq":
+        seq = np.random.SeedSequence(spec["seed"])
+        runs = []
+        for _ in range(2):
+            mm = build_api(spec, rng_override=seq)
+            d = [digest(mm)]
+            for _ in range(2):
+                mm.step()
+                d.append(digest(mm))
+            runs.append(d)
+        same_obj_ok = runs[0] == runs[1] == digs[:3]
     py1, np1 = random.getstate(), np.random.get_state()
     return {
         "digests": digs,
@@ -328,7 +363,49 @@ def run_spec(spec):
         "global_np_unchanged": bool(np0[0] == np1[0] and (np0[1] == np1[1]).all() and np0[2:] == np1[2:]),
         "derived_bad": bad,
         "reseed_ok": reseed_ok,
+        "same_obj_ok": same_obj_ok,
     }
+
+
+class BatchProbe:
+    pass
+
+
+def _make_batch_probe():
+    import mesa
+
+    class Wealthy(mesa.Agent):
+        def __init__(self, model):
+            super().__init__(model)
+            self.wealth = model.random.randrange(100)
+
+        def step(self):
+            self.wealth += self.random.randrange(10) + int(self.model.rng.integers(0, 3))
+
+    class BatchProbeModel(mesa.Model):
+        """top-level (picklable) model for batch_run process comparisons; takes rng="""
+
+        def __init__(self, n=5, rng=None):
+            super().__init__(rng=rng)
+            Wealthy.create_agents(self, n)
+            self.datacollector = mesa.DataCollector(model_reporters={"total": lambda m: sum(a.wealth for a in m.agents)},
+                                                    agent_reporters={"wealth": "wealth"})
+            self.datacollector.collect(self)
+
+        def step(self):
+            self.agents.shuffle_do("step")
+            self.datacollector.collect(self)
+
+    return Wealthy, BatchProbeModel
+
+
+Wealthy, BatchProbeModel = None, None
+try:
+    Wealthy, BatchProbeModel = _make_batch_probe()
+    Wealthy.__qualname__ = "Wealthy"
+    BatchProbeModel.__qualname__ = "BatchProbeModel"
+except Exception:  # noqa: BLE001
+    pass
 
 
 if __name__ == "__main__":
